@@ -17,6 +17,10 @@ CLAIMED = {
             "for every enumerated mask and shape: all input values, all conditioner functions", "4-C07"),
     "C20": ("proof", "contract-based deductive verification: index specifications of the helpers as postconditions over symbolic tensors (syntactic symbol identity for data movement, z3 for arithmetic), frame condition `assigns nothing` from the write log",
             "all tensor values for every enumerated shape; typecheck predicates by evaluation (bounded)", "4-C20"),
+    "C06": ("proof", "contract-based deductive verification in a ghost may-dependency domain: the real MADE constructors and forward passes (both copies) run on (deps, live) elements with symbolic random-mask degrees; `output block i does not depend on inputs >= i` is a validity query per output unit (z3)",
+            "for every enumerated architecture: all weights, inputs, contexts and all random-mask draws", "4-C06"),
+    "C08": ("proof", "contract-based deductive verification: wrappers executed with tagged uninterpreted stage maps; result terms compared with a reference composition / routing spec, log-dets as sums, inverse via the stage axioms",
+            "all values and all stage functions for every enumerated nesting / shape / split dimension", "4-C08"),
 }
 REASON_TODO = "check not built yet in this session (the design in DESIGN.md section 4 applies; will be claimed when its contracts discharge)"
 props = [json.loads(l) for l in open(os.path.join(V, "properties.jsonl"))]
